@@ -55,3 +55,7 @@ def run(ctx):
         doe.p3_parallel_fd(ctx)
     else:
         doe.p4_doe_shared_hdf5_cache(ctx)
+
+
+def evidence_extra(pm):
+    return {f"{NAME}_small_pool_order_coverage": common.order_coverage(pm)}
